@@ -2,28 +2,37 @@
 
 (D)    spec/StatMech.tla: the vibrational cache as a state machine (exhaustive) and the
        mode aggregator on formal linear combinations (G = H - S, F = U - S,
-       H - U = [trans] for all 160 mode-kind configurations); TLC emits the
-       configurations and the cache behaviours.
+       H - U = [trans] exactly for the 240 configurations of physical mode kinds and for
+       none of the 3120 that hold a user-set mode); option outcomes (raise_error) on the
+       shared signature table spec/StatMechSig.tla; TLC emits the configurations and the
+       cache behaviours.
 (S->C) cache behaviours are stepped through real HarmonicVib / QRRHOVib objects
        (getter equality with a fresh object built from the list TLC computed);
-       every configuration is instantiated as a real StatMech.
+       every configuration is instantiated as a real StatMech (from instances, through
+       the constructor's keyword routing with classes, through every preset).
 (C->S) spec/Trace_StatMech.tla judges the recorded values: identities, Richardson
        derivative relations, pressure dependence of S, sum/product of the verbose
        vector, per-mode textbook closed forms from verified witnesses and libm
-       sensors, and invariance of geometry-derived parameters.
+       sensors, option behaviour (raise_error / raise_warning / include_ZPE /
+       use_references / S_elements / units), argument types, and invariance of
+       geometry-derived parameters.
 """
 import inspect
 import math
+import os
 import random
+import warnings
 
 from harness import core
 from harness.core import to_dec
 
 H_STEP = 2.0 ** -7
 G7 = ('get_CvoR', 'get_CpoR', 'get_UoRT', 'get_HoRT', 'get_SoR', 'get_FoRT', 'get_GoRT')
-OPT_SKIPS = []
 GNAME = {'q': 'get_q', 'Cv': 'get_CvoR', 'Cp': 'get_CpoR', 'U': 'get_UoRT', 'H': 'get_HoRT',
          'S': 'get_SoR', 'F': 'get_FoRT', 'G': 'get_GoRT'}
+DIMNAME = {'Cv': 'get_Cv', 'Cp': 'get_Cp', 'U': 'get_U', 'H': 'get_H', 'S': 'get_S', 'F': 'get_F', 'G': 'get_G'}
+ORDER = ('trans', 'vib', 'rot', 'elec', 'nucl')
+ZD = [0, 0]
 
 # physical constants of the harness sensors (CODATA 2014, SI)
 KB_J = 1.38064852e-23
@@ -31,6 +40,18 @@ H_JS = 6.626070040e-34
 NA = 6.022140857e23
 C2_CMK = 1.43877736
 KB_EV = 8.6173303e-5
+
+# every unit of the documented table of pmutt.constants.R, then three per-mass forms
+R_UNITS = ['J/mol/K', 'kJ/mol/K', 'L kPa/mol/K', 'cm3 kPa/mol/K', 'm3 Pa/mol/K', 'cm3 MPa/mol/K', 'm3 bar/mol/K',
+           'L bar/mol/K', 'L torr/mol/K', 'cal/mol/K', 'kcal/mol/K', 'L atm/mol/K', 'cm3 atm/mol/K', 'eV/K', 'Eh/K',
+           'Ha/K']
+MASS_UNITS = ['J/g/K', 'kJ/kg/K', 'cal/g/K']
+ALL_UNITS = R_UNITS + MASS_UNITS
+
+# ranges of the property's quantifier
+RANGES = {'wn': (10.0, 4500.0), 'rotT': (0.01, 100.0), 'M': (1.0, 500.0), 'theta': (50.0, 2000.0),
+          'T': (50.0, 5000.0), 'P': (1e-4, 1e3)}
+EDGES = ('interior', 'lo', 'hi', 'adj_lo', 'adj_hi', 'mixed')
 
 
 def call(obj, name, **kw):
@@ -41,73 +62,300 @@ def call(obj, name, **kw):
     return float(fn(**{k: v for k, v in kw.items() if k in params}))
 
 
+def call_or(obj, name, default, **kw):
+    """direct call of a mode's getter; the default value when the mode has no such method"""
+    if not hasattr(obj, name):
+        return default
+    return call(obj, name, **kw)
+
+
+class PartialMode:
+    """a user-written mode object (not a pmutt class) that defines only some of the getters"""
+
+    def __init__(self, have=(), vals=None):
+        self.have = tuple(have)
+        self.vals = dict(vals or {})
+        for g in self.have:
+            v = self.vals[g]
+            # the library passes arguments by reflection over co_varnames[:co_argcount]: plain closures
+            if g in ('U', 'H', 'F', 'G'):
+                fn = (lambda vv: (lambda T: vv / T))(v)
+            else:
+                fn = (lambda vv: (lambda: vv))(v)
+            setattr(self, GNAME[g], fn)
+
+
+def edge_value(rnd, key, edge, interior):
+    """a value of one ranged quantity: on a bound, adjacent to a bound, or in the interior"""
+    lo, hi = RANGES[key]
+    if edge == 'mixed':
+        edge = rnd.choice(['interior', 'interior', 'lo', 'hi', 'adj_lo', 'adj_hi'])
+    if edge == 'lo':
+        return lo
+    if edge == 'hi':
+        return hi
+    if edge == 'adj_lo':
+        return rnd.choice([math.nextafter(lo, math.inf), lo * (1 + 1e-6)])
+    if edge == 'adj_hi':
+        return rnd.choice([math.nextafter(hi, -math.inf), hi * (1 - 1e-6)])
+    return interior()
+
+
 # --------------------------------------------------------------------------
 # building real objects from abstract descriptions
 # --------------------------------------------------------------------------
-def draw_params(rnd, cfg):
-    p = {}
+def draw_constant(rnd):
+    return {'q': rnd.choice([1.0, rnd.uniform(0.5, 50.0)]), 'Cv': rnd.choice([0.0, rnd.uniform(0, 5e-4)]),
+            'Cp': rnd.uniform(0, 6e-4), 'U': rnd.uniform(-2, 2), 'H': rnd.choice([0.0, rnd.uniform(-2, 2)]),
+            'S': rnd.uniform(0, 2e-3), 'F': rnd.uniform(-3, 1), 'G': rnd.uniform(-3, 1)}
+
+
+def draw_partial(rnd):
+    have = rnd.choice([[], ['H', 'S'], ['U', 'H', 'S', 'Cv', 'Cp'], ['q'], ['Cv', 'Cp', 'U', 'H', 'S', 'F', 'G'],
+                       ['q', 'Cv', 'Cp', 'U', 'H', 'S', 'F', 'G']])
+    vals = {g: (rnd.uniform(0.5, 5.0) if g == 'q' else rnd.uniform(-300.0, 300.0) if g in 'UHFG' else rnd.uniform(0, 6))
+            for g in have}
+    return {'have': have, 'vals': vals}
+
+
+def draw_species_energy(rnd):
+    """a small species with an electronic ground state (for LSR reference reactions / surfaces / gases)"""
+    return {'E': rnd.choice([0.0, rnd.uniform(-40, 0), rnd.uniform(-2, 2)]), 'wn': rnd.choice([None, [rnd.uniform(100, 3000)]])}
+
+
+def draw_lsr(rnd):
+    form = rnd.choice(['float', 'objects', 'mixed'])
+    p = {'form': form, 'slope': rnd.choice([0.0, 1.0, 0.5, rnd.uniform(0, 1)]),
+         'intercept': rnd.choice([0.0, rnd.uniform(-30, 30)])}
+    if form == 'float':
+        p['reaction'] = rnd.choice([0.0, rnd.uniform(-150, 20)])
+        p['surf'] = rnd.choice([None, 0.0, rnd.uniform(-500, 0)])          # None: left at its default (0.)
+        p['gas'] = rnd.choice([None, rnd.uniform(-500, 0)])
+    else:
+        nreac, nprod = rnd.randint(1, 2), rnd.randint(1, 2)
+        p['reaction'] = {'reactants': [draw_species_energy(rnd) for _ in range(nreac)],
+                         'rstoich': [rnd.choice([1.0, 1.0, 2.0, 0.5]) for _ in range(nreac)],
+                         'products': [draw_species_energy(rnd) for _ in range(nprod)],
+                         'pstoich': [rnd.choice([1.0, 1.0, 2.0]) for _ in range(nprod)]}
+        p['surf'] = draw_species_energy(rnd)
+        p['gas'] = draw_species_energy(rnd) if form == 'objects' else rnd.uniform(-500, 0)
+    return p
+
+
+def draw_params(rnd, cfg, edge='interior', physical=True):
+    p = {'edge': edge}
     if cfg['trans'] == 'FreeTrans':
-        p['trans'] = {'n': rnd.choice([3, 3, 3, 2, 1]), 'M': rnd.choice([1.008, 2.016, 18.015, 44.01, rnd.uniform(1, 500)])}
+        M = edge_value(rnd, 'M', edge, lambda: rnd.choice([1.008, 2.016, 18.015, 44.01, 18, 44, rnd.uniform(1, 500)]))
+        if M in (1.0, 500.0) and rnd.random() < 0.5:
+            M = int(M)
+        p['trans'] = {'n': rnd.choice([3, 3, 2, 1]), 'M': M}
     v = cfg['vib']
     if v in ('Harmonic', 'QRRHO'):
         n = rnd.randint(1, 9)
-        wn = [rnd.choice([rnd.uniform(10, 200), rnd.uniform(200, 1500), rnd.uniform(1500, 4500)]) for _ in range(n)]
+        wn = [edge_value(rnd, 'wn', edge, lambda: rnd.choice([rnd.uniform(10, 200), rnd.uniform(200, 1500),
+                                                               rnd.uniform(1500, 4500)])) for _ in range(n)]
         k = rnd.random()
         if k < 0.4:
             wn[rnd.randrange(n)] = -rnd.uniform(20, 1500)          # imaginary frequency
         if k < 0.1:
             wn.append(0.0)
-        sub = rnd.choice([None, None, 50.0, 100.0, 75.5])
+        sub = rnd.choice([None, None, 50.0, 100.0, 75.5, 10.0, 4500.0])
         int_wn = rnd.random() < 0.3                  # integer-typed input (list of ints / int ndarray)
         if int_wn:
             wn = [int(round(w)) for w in wn]
             sub = rnd.choice([None, 75.5, 62.25])
-        p['vib'] = {'wn': wn, 'sub': sub, 'int_wn': int_wn}
+        p['vib'] = {'wn': wn, 'sub': sub, 'int_wn': int_wn, 'cont': rnd.choice(['list', 'tuple', 'ndarray'])}
         if v == 'QRRHO':
-            p['vib'].update({'Bav': rnd.choice([1e-44, 5e-45, 3e-44]), 'v0': rnd.choice([100.0, 50.0, 150.0])})
+            p['vib'].update({'Bav': rnd.choice([1e-44, 5e-45, 3e-44]), 'v0': rnd.choice([100.0, 50.0, 150.0, 100]),
+                             'alpha': rnd.choice([4, 4, 2, 6])})
     elif v in ('Einstein', 'Debye'):
-        p['vib'] = {'theta': rnd.uniform(50, 2000), 'u': rnd.uniform(-2, 0.5)}
+        th = edge_value(rnd, 'theta', edge, lambda: rnd.choice([rnd.uniform(50, 2000), 300]))
+        p['vib'] = {'theta': th, 'u': rnd.choice([0.0, 0, rnd.uniform(-2, 0.5), rnd.uniform(-2, 0.5)])}
+        if v == 'Einstein' and p['vib']['u'] == 0 and rnd.random() < 0.5:
+            p['vib']['u'] = None                     # interaction_energy left at its default
+    elif v == 'Constant':
+        p['vib'] = draw_constant(rnd)
+    elif v == 'Partial':
+        p['vib'] = draw_partial(rnd)
     r = cfg['rot']
+    thr = lambda: edge_value(rnd, 'rotT', edge, lambda: rnd.choice([rnd.uniform(0.01, 100), rnd.uniform(0.01, 1), 2]))
     if r == 'RotLinear':
-        p['rot'] = {'sigma': rnd.choice([1, 2]), 'thetas': [rnd.uniform(0.01, 100)]}
+        p['rot'] = {'sigma': rnd.choice([1, 2, 1.0, 2.0]), 'thetas': [thr()]}
     elif r == 'RotNonlinear':
-        p['rot'] = {'sigma': rnd.choice([1, 2, 3, 6, 12]), 'thetas': [rnd.uniform(0.01, 100) for _ in range(3)]}
+        p['rot'] = {'sigma': rnd.choice([1, 2, 3, 6, 12, 24, 2.0, 4.0, 10]), 'thetas': [thr() for _ in range(3)]}
     elif r == 'RotMono':
         p['rot'] = {'sigma': 1, 'thetas': [0.0]}
-    if cfg['elec'] == 'GroundState':
-        p['elec'] = {'E': rnd.choice([0.0, rnd.uniform(-2, 2), rnd.uniform(-40, 0)]), 'spin': rnd.choice([0, 0.5, 1, 1.5, 2])}
+    elif r == 'Constant':
+        p['rot'] = draw_constant(rnd)
+    elif r == 'Partial':
+        p['rot'] = draw_partial(rnd)
+    if 'thetas' in p.get('rot', {}):
+        p['rot']['cont'] = rnd.choice(['list', 'tuple', 'ndarray'])
+    e = cfg['elec']
+    if e == 'GroundState':
+        p['elec'] = {'E': rnd.choice([0.0, 0, -3, rnd.uniform(-2, 2), rnd.uniform(-40, 0)]),
+                     'spin': rnd.choice([0, 0.5, 1, 1.5, 2, 0.0, 1.0, 2.5])}
+    elif e == 'LSR':
+        p['elec'] = draw_lsr(rnd)
+    elif e == 'Constant':
+        p['elec'] = draw_constant(rnd)
+    elif e == 'Partial':
+        p['elec'] = draw_partial(rnd)
+    for slot in ('trans', 'nucl'):
+        if cfg[slot] == 'Constant':
+            p[slot] = draw_constant(rnd)
+        elif cfg[slot] == 'Partial':
+            p[slot] = draw_partial(rnd)
+    # extra models of the species (misc_models): none, one object (not in a list), a list with a hole.  A
+    # ConstantMode there makes the species user-set (additivity only), so physical configurations get
+    # physical extras (a second harmonic model, the placeholder)
+    if physical:
+        p['misc'] = rnd.choice([None, None, None, ['Harmonic'], 'single:Harmonic', ['Harmonic', None, 'Empty'], ['Empty']])
+    else:
+        p['misc'] = rnd.choice([None, None, ['Constant'], 'single:Constant', ['Constant', None, 'Empty'],
+                                ['Empty', 'Constant', 'Harmonic']])
+    if p['misc'] is not None:
+        p['misc_vals'] = [draw_constant(rnd) for _ in range(3)]
+        p['misc_wn'] = [rnd.uniform(10, 4500) for _ in range(rnd.randint(1, 3))]
     return p
 
 
-def build_modes(cfg, p):
-    from pmutt.statmech import EmptyMode, trans, vib, rot, elec, nucl
-    m = {}
-    m['trans'] = trans.FreeTrans(n_degrees=p['trans']['n'], molecular_weight=p['trans']['M']) \
-        if cfg['trans'] == 'FreeTrans' else EmptyMode()
-    v = cfg['vib']
-    if v == 'Harmonic':
-        # ints stay ints (a list of Python ints), floats stay floats
-        m['vib'] = vib.HarmonicVib(vib_wavenumbers=list(p['vib']['wn']), imaginary_substitute=p['vib']['sub'])
-    elif v == 'QRRHO':
-        import numpy as np
-        m['vib'] = vib.QRRHOVib(vib_wavenumbers=np.array(p['vib']['wn']), Bav=p['vib']['Bav'], v0=p['vib']['v0'],
-                                alpha=4, imaginary_substitute=p['vib']['sub'])
-    elif v == 'Einstein':
-        m['vib'] = vib.EinsteinVib(einstein_temperature=p['vib']['theta'], interaction_energy=p['vib']['u'])
-    elif v == 'Debye':
-        m['vib'] = vib.DebyeVib(debye_temperature=p['vib']['theta'], interaction_energy=p['vib']['u'])
+def _container(vals, cont, as_int=False):
+    import numpy as np
+    if cont == 'tuple':
+        return tuple(vals)
+    if cont == 'ndarray':
+        return np.array(vals)
+    return list(vals)
+
+
+def _species_from(d):
+    from pmutt.statmech import StatMech, elec, vib
+    kw = {'elec_model': elec.GroundStateElec(potentialenergy=d['E'], spin=0)}
+    if d.get('wn'):
+        kw['vib_model'] = vib.HarmonicVib(vib_wavenumbers=list(d['wn']))
+    return StatMech(**kw)
+
+
+def lsr_kwargs(pe):
+    from pmutt.reaction import Reaction
+    kw = {'slope': pe['slope'], 'intercept': pe['intercept']}
+    if isinstance(pe['reaction'], dict):
+        rx = pe['reaction']
+        kw['reaction'] = Reaction(reactants=[_species_from(d) for d in rx['reactants']], reactants_stoich=list(rx['rstoich']),
+                                  products=[_species_from(d) for d in rx['products']], products_stoich=list(rx['pstoich']))
     else:
-        m['vib'] = EmptyMode()
+        kw['reaction'] = pe['reaction']
+    for key, name in (('surf', 'surf_species'), ('gas', 'gas_species')):
+        if pe[key] is None:
+            continue
+        kw[name] = _species_from(pe[key]) if isinstance(pe[key], dict) else pe[key]
+    return kw
+
+
+def mode_spec(slot, kind, p):
+    """(class, keyword arguments) of one mode; None for the placeholder"""
+    from pmutt.statmech import EmptyMode, ConstantMode, trans, vib, rot, elec, nucl
+    from pmutt.statmech.lsr import LSR
+    q = p.get(slot, {})
+    if kind == 'FreeTrans':
+        return trans.FreeTrans, {'n_degrees': q['n'], 'molecular_weight': q['M']}
+    if kind == 'Harmonic':
+        return vib.HarmonicVib, {'vib_wavenumbers': _container(q['wn'], q['cont']), 'imaginary_substitute': q['sub']}
+    if kind == 'QRRHO':
+        return vib.QRRHOVib, {'vib_wavenumbers': _container(q['wn'], q['cont']), 'Bav': q['Bav'], 'v0': q['v0'],
+                              'alpha': q['alpha'], 'imaginary_substitute': q['sub']}
+    if kind == 'Einstein':
+        kw = {'einstein_temperature': q['theta']}
+        if q['u'] is not None:
+            kw['interaction_energy'] = q['u']
+        return vib.EinsteinVib, kw
+    if kind == 'Debye':
+        return vib.DebyeVib, {'debye_temperature': q['theta'], 'interaction_energy': q['u']}
     geom = {'RotMono': 'monatomic', 'RotLinear': 'linear', 'RotNonlinear': 'nonlinear'}
-    if cfg['rot'] in geom:
-        m['rot'] = rot.RigidRotor(symmetrynumber=p['rot']['sigma'], rot_temperatures=list(p['rot']['thetas']),
-                                  geometry=geom[cfg['rot']])
-    else:
-        m['rot'] = EmptyMode()
-    m['elec'] = elec.GroundStateElec(potentialenergy=p['elec']['E'], spin=p['elec']['spin']) \
-        if cfg['elec'] == 'GroundState' else EmptyMode()
-    m['nucl'] = nucl.EmptyNucl() if cfg['nucl'] == 'EmptyNucl' else EmptyMode()
+    if kind in geom:
+        return rot.RigidRotor, {'symmetrynumber': q['sigma'], 'rot_temperatures': _container(q['thetas'], q['cont']),
+                                'geometry': geom[kind]}
+    if kind == 'GroundState':
+        return elec.GroundStateElec, {'potentialenergy': q['E'], 'spin': q['spin']}
+    if kind == 'LSR':
+        return LSR, lsr_kwargs(q)
+    if kind == 'EmptyNucl':
+        return nucl.EmptyNucl, {}
+    if kind == 'Constant':
+        return ConstantMode, dict(q)
+    if kind == 'Partial':
+        return PartialMode, {'have': list(q['have']), 'vals': dict(q['vals'])}
+    return EmptyMode, {}
+
+
+def build_modes(cfg, p):
+    m = {}
+    for slot in ORDER:
+        cls, kw = mode_spec(slot, cfg[slot], p)
+        m[slot] = cls(**kw)
     return m
+
+
+def build_misc(p):
+    from pmutt.statmech import EmptyMode, ConstantMode, vib
+    if p.get('misc') is None:
+        return None, []
+    vals = p['misc_vals']
+
+    def mk(k, i):
+        if k is None:
+            return None
+        if k == 'Constant':
+            return ConstantMode(**vals[i])
+        if k == 'Harmonic':
+            return vib.HarmonicVib(vib_wavenumbers=list(p['misc_wn']))
+        return EmptyMode()
+
+    if isinstance(p['misc'], str):
+        obj = mk(p['misc'].split(':')[1], 0)
+        return obj, [obj]
+    out = [mk(k, i) for i, k in enumerate(p['misc'])]
+    return out, out
+
+
+def routable(cfg):
+    kinds = [cfg[s] for s in ORDER]
+    return 'Partial' not in kinds and kinds.count('Constant') <= 1
+
+
+def build_species(cfg, p, form, elements, name='sp', references=None):
+    """form: 'instances' (mode objects), 'classes' (the constructor's keyword routing: classes + flat keywords),
+    'preset:<name>' (pmutt.statmech.presets entry + the remaining keywords)"""
+    from pmutt.statmech import StatMech, presets
+    misc, misc_list = build_misc(p)
+    common = {'name': name, 'elements': elements, 'misc_models': misc}
+    if references is not None:
+        common['references'] = references
+    if form == 'instances':
+        modes = build_modes(cfg, p)
+        sp = StatMech(trans_model=modes['trans'], vib_model=modes['vib'], rot_model=modes['rot'],
+                      elec_model=modes['elec'], nucl_model=modes['nucl'], **common)
+    else:
+        kw = {}
+        flat = {}
+        for slot in ORDER:
+            cls, mkw = mode_spec(slot, cfg[slot], p)
+            kw[slot + '_model'] = cls
+            for k, v in mkw.items():
+                if k in flat and not (flat[k] is v or flat[k] == v):
+                    raise core.MachineryError('keyword routing clash on %s' % k)
+                flat[k] = v
+        if form.startswith('preset:'):
+            # the preset supplies the model classes (and what else it fixes); only the remaining flat keywords
+            # are passed.  What each preset is documented to describe is PRESET_CFGS: the twin built from mode
+            # objects follows that description, so a preset that drifts from it is judged by RoutedEqualsInstances
+            pre = presets[form.split(':', 1)[1]]
+            sp = StatMech(**pre, **{k: v for k, v in flat.items() if k not in pre}, **common)
+        else:
+            sp = StatMech(**kw, **flat, **common)
+    modes = {slot: getattr(sp, slot + '_model') for slot in ORDER}
+    return sp, modes, misc_list
 
 
 def thermo_event(obj, kind, has_trans, T, P, P2, debye_theta=None):
@@ -150,6 +398,35 @@ def _debye3(x):
     return 3.0 * val / x ** 3
 
 
+def _energies_of(d):
+    return d['E']
+
+
+def lsr_event(mode, pe, T):
+    """linear scaling relation: the energies of the objects the relation is built on are the logged arguments
+    (eV, ground-state potential energies); for float inputs (kcal/mol) the energies the held sub-objects report"""
+    kc = 'kcal/mol'
+    e = {'ev': 'lsr', 'form': pe['form'], 'T': to_dec(T), 'slope': to_dec(pe['slope']), 'intercept': to_dec(pe['intercept']),
+         'U': to_dec(call(mode, 'get_UoRT', T=T)), 'H': to_dec(call(mode, 'get_HoRT', T=T)),
+         'S': to_dec(call(mode, 'get_SoR')), 'Cv': to_dec(call(mode, 'get_CvoR')), 'Cp': to_dec(call(mode, 'get_CpoR')),
+         'F': to_dec(call(mode, 'get_FoRT', T=T)), 'G': to_dec(call(mode, 'get_GoRT', T=T)),
+         # what the held sub-objects report (composition form of the relation), kcal/mol
+         'sub': [to_dec(float(mode.reaction.get_delta_E(units=kc, T=T))), to_dec(float(mode.surf_species.get_E(units=kc, T=T))),
+                 to_dec(float(mode.gas_species.get_E(units=kc, T=T)))],
+         'objects': pe['form'] == 'objects'}
+    if pe['form'] == 'objects':
+        rx = pe['reaction']
+        e['eR'] = [to_dec(d['E']) for d in rx['reactants']]
+        e['nR'] = [to_dec(s) for s in rx['rstoich']]
+        e['eP'] = [to_dec(d['E']) for d in rx['products']]
+        e['nP'] = [to_dec(s) for s in rx['pstoich']]
+        e['eS'] = to_dec(pe['surf']['E'])
+        e['eG'] = to_dec(pe['gas']['E'])
+    else:
+        e.update({'eR': [], 'nR': [], 'eP': [], 'nP': [], 'eS': ZD, 'eG': ZD})
+    return e
+
+
 def mode_events(slot, kind, mode, p, T, P):
     """closed-form event for one mode (textbook expression judged by the trace spec)"""
     e = None
@@ -160,19 +437,20 @@ def mode_events(slot, kind, mode, p, T, P):
         e = {'ev': 'harmonic' if kind == 'Harmonic' else 'qrrho', 'T': to_dec(T),
              'wn': [to_dec(w) for w in wn], 'hasSub': sub is not None, 'sub': to_dec(sub or 0.0),
              'U': to_dec(call(mode, 'get_UoRT', T=T)), 'S': to_dec(call(mode, 'get_SoR', T=T)),
-             'Cv': to_dec(call(mode, 'get_CvoR', T=T))}
+             'Cv': to_dec(call(mode, 'get_CvoR', T=T)), 'ZPE': to_dec(mode.get_ZPE())}
         e.update(_ho_sensors(thetas, T))
         if kind == 'Harmonic':
             e['q'] = to_dec(call(mode, 'get_q', T=T, include_ZPE=True))
+            e['qdef'] = to_dec(call(mode, 'get_q', T=T))
             e['qnz'] = to_dec(call(mode, 'get_q', T=T, include_ZPE=False))
-            e['ZPE'] = to_dec(mode.get_ZPE())
         else:
-            v0, Bav = p['vib']['v0'], p['vib']['Bav']
+            v0, Bav, alpha = p['vib']['v0'], p['vib']['Bav'], p['vib']['alpha']
             e['v0'] = to_dec(v0)
+            e['alpha'] = int(alpha)
             ws, ls, omw = [], [], []
             for w in nu:
-                ws.append(1.0 / (1.0 + (v0 / w) ** 4))
-                omw.append((v0 / w) ** 4 / (1.0 + (v0 / w) ** 4))
+                ws.append(1.0 / (1.0 + (v0 / w) ** alpha))
+                omw.append((v0 / w) ** alpha / (1.0 + (v0 / w) ** alpha))
                 mu = H_JS / (8.0 * math.pi ** 2 * (w * 100.0) * 299792458.0)
                 mu1 = mu * Bav / (mu + Bav)
                 ls.append(0.5 * math.log(8.0 * math.pi ** 3 * mu1 * KB_J * T / H_JS ** 2))
@@ -180,14 +458,14 @@ def mode_events(slot, kind, mode, p, T, P):
             e['ls'] = [to_dec(x) for x in ls]
             e['omw'] = [to_dec(x) for x in omw]
     elif kind in ('Einstein', 'Debye'):
-        th, u = p['vib']['theta'], p['vib']['u']
+        th, u = p['vib']['theta'], p['vib']['u'] or 0.0
         x = th / T
         ex = math.exp(-x)
         e = {'ev': kind.lower(), 'T': to_dec(T), 'theta': to_dec(th), 'u': to_dec(u), 'x': to_dec(x),
              'ex': to_dec(ex), 'om': to_dec(-math.expm1(-x)), 'y': to_dec(ex / -math.expm1(-x)),
              'lg': to_dec(math.log1p(-ex)),
              'U': to_dec(call(mode, 'get_UoRT', T=T)), 'S': to_dec(call(mode, 'get_SoR', T=T)),
-             'Cv': to_dec(call(mode, 'get_CvoR', T=T))}
+             'Cv': to_dec(call(mode, 'get_CvoR', T=T)), 'ZPE': to_dec(mode.get_ZPE())}
         if kind == 'Debye':
             e['D3'] = to_dec(_debye3(x))
     elif kind in ('RotMono', 'RotLinear', 'RotNonlinear'):
@@ -218,49 +496,304 @@ def mode_events(slot, kind, mode, p, T, P):
              'U': to_dec(call(mode, 'get_UoRT', T=T)), 'H': to_dec(call(mode, 'get_HoRT', T=T)),
              'S': to_dec(call(mode, 'get_SoR')), 'Cv': to_dec(call(mode, 'get_CvoR')),
              'Cp': to_dec(call(mode, 'get_CpoR'))}
+    elif kind == 'LSR':
+        e = lsr_event(mode, p['elec'], T)
     return [e] if e else []
 
 
+def observe(fn, **kw):
+    """one library call under an always-on warning filter: outcome class, number of 'mode lacks the quantity'
+    RuntimeWarnings, the returned value"""
+    with warnings.catch_warnings(record=True) as w:
+        warnings.simplefilter('always')
+        try:
+            val = fn(**kw)
+            out = 'value'
+        except AttributeError:
+            val, out = None, 'AttributeError'
+        except NotImplementedError:
+            val, out = None, 'NotImplementedError'
+        except Exception as ex:                      # anything else is judged as a wrong outcome
+            val, out = None, 'other:' + type(ex).__name__
+    nw = sum(1 for x in w if issubclass(x.category, RuntimeWarning) and 'has no attribute' in str(x.message))
+    return out, nw, val
+
+
+RE_RW = ((True, True), (True, False), (False, True), (False, False))
+
+
+def missing_event(sp, modes, misc_list, kinds, haves, g, T, P, dim_unit=None):
+    """option matrix raise_error x raise_warning for one getter (g in GNAME, or 'ZPE' through get_quantity)"""
+    op = 'prod' if g == 'q' else 'sum'
+    default = 1.0 if op == 'prod' else 0.0
+    kw = {'T': T, 'P': P}
+    if g == 'ZPE':
+        fn = lambda **k: sp.get_quantity('get_ZPE', **k)
+        direct = [call_or(modes[s], 'get_ZPE', default) for s in ORDER]
+        nmisc_lack = sum(1 for m in misc_list if m is not None and not hasattr(m, 'get_ZPE'))
+        callname = 'get_quantity'
+    else:
+        name = DIMNAME[g] if dim_unit else GNAME[g]
+        fn = getattr(sp, name)
+        if dim_unit:
+            kw['units'] = dim_unit if g in ('Cv', 'Cp', 'S') else dim_unit[:-2]
+        try:
+            direct = [call_or(modes[s], GNAME[g], default, **{'T': T, 'P': P}) for s in ORDER]
+        except NotImplementedError:
+            direct = [default] * 5
+        nmisc_lack = 0
+        callname = name
+    rows = []
+    for re_, rw in RE_RW:
+        out, nw, val = observe(fn, verbose=True, raise_error=re_, raise_warning=rw, **kw)
+        out0, nw0, tot = observe(fn, verbose=False, raise_error=re_, raise_warning=rw, **kw)
+        rows.append({'re': re_, 'rw': rw, 'out': out, 'nwarn': nw,
+                     'vec': [to_dec(float(x)) for x in val] if out == 'value' else [],
+                     'out0': out0, 'nwarn0': nw0, 'tot': to_dec(float(tot)) if out0 == 'value' else ZD})
+    return {'ev': 'missing', 'g': g, 'op': op, 'call': callname, 'dim': bool(dim_unit), 'kinds': list(kinds),
+            'have': [list(h) for h in haves], 'direct': [to_dec(x) for x in direct], 'nmiscLack': nmisc_lack,
+            'rows': rows}
+
+
+def energy_event(sp, modes, kinds, haves, T, unit):
+    """electronic energy with / without the zero-point energy, dimensionless and in `unit` (an energy unit)"""
+    elec_m, vib_m = modes['elec'], modes['vib']
+    has_u = hasattr(elec_m, 'get_UoRT')
+    has_z = hasattr(vib_m, 'get_ZPE')
+    rows = []
+    for izpe in (None, False, True):
+        for re_, rw in RE_RW:
+            kw = {'T': T, 'raise_error': re_, 'raise_warning': rw}
+            if izpe is not None:
+                kw['include_ZPE'] = izpe
+            out, nw, val = observe(sp.get_EoRT, **kw)
+            outd, nwd, vald = observe(sp.get_E, units=unit, **kw)
+            rows.append({'izpe': 'default' if izpe is None else ('on' if izpe else 'off'), 're': re_, 'rw': rw, 'out': out, 'nwarn': nw,
+                         'val': to_dec(float(val)) if out == 'value' else ZD,
+                         'outd': outd, 'nwarnd': nwd, 'vald': to_dec(float(vald)) if outd == 'value' else ZD})
+    return {'ev': 'energy', 'T': to_dec(T), 'unit': unit + '/K', 'elecKind': kinds[3], 'vibKind': kinds[1],
+            'elecHave': list(haves[3]), 'elecU': to_dec(call(elec_m, 'get_UoRT', T=T)) if has_u else ZD,
+            'zpe': to_dec(float(vib_m.get_ZPE())) if has_z else ZD, 'rows': rows}
+
+
+def argtype_event(sp, rnd, rot_nonlinear):
+    """the same state given as Python float / int / numpy scalars: one species, integral T and P"""
+    import numpy as np
+    T = rnd.choice([50, 298, 300, 1000, 1291, 2000, 3000, 4999, 5000])
+    P = rnd.choice([1, 2, 10, 1000])
+    base = [call(sp, g, T=float(T), P=float(P)) for g in G7]
+    alts = []
+    for tname, tt in (('int', int), ('np.float64', np.float64), ('np.int64', np.int64), ('np.int32', np.int32)):
+        for pname, pt in (('float', float), ('int', int), ('np.float64', np.float64), ('np.int64', np.int64)):
+            if (tname, pname) not in (('int', 'float'), ('int', 'int'), ('np.float64', 'np.float64'),
+                                      ('np.int64', 'np.int64'), ('np.int32', 'float'), ('np.int64', 'float')):
+                continue
+            with warnings.catch_warnings():
+                warnings.simplefilter('ignore')
+                v = [call(sp, g, T=tt(T), P=pt(P)) for g in G7]
+            alts.append({'t': tname, 'p': pname, 'finite': all(core.finite(x) for x in v),
+                         'v': [to_dec(x) if core.finite(x) else ZD for x in v]})
+    return {'ev': 'argtype', 'T': to_dec(float(T)), 'P': to_dec(float(P)), 'v': [to_dec(x) for x in base], 'alts': alts,
+            'rotNonlinear': bool(rot_nonlinear)}
+
+
+def apply_edit(rnd, cfg, p, modes):
+    """edit a parameter of every closed-form mode by attribute assignment (the object is then re-evaluated);
+    returns the number of edits"""
+    import numpy as np
+    n = 0
+    if cfg['trans'] == 'FreeTrans':
+        if rnd.random() < 0.5:
+            p['trans']['n'] = rnd.choice([1, 2, 3])
+            modes['trans'].n_degrees = p['trans']['n']
+        else:
+            p['trans']['M'] = rnd.uniform(1, 500)
+            modes['trans'].molecular_weight = p['trans']['M']
+        n += 1
+    v = cfg['vib']
+    if v in ('Harmonic', 'QRRHO'):
+        wn = [rnd.uniform(10, 4500) for _ in range(rnd.randint(1, 6))]
+        if rnd.random() < 0.4:
+            wn[0] = -rnd.uniform(20, 800)
+        p['vib']['wn'] = wn
+        modes['vib'].vib_wavenumbers = np.array(wn)
+        n += 1
+    elif v in ('Einstein', 'Debye'):
+        p['vib']['theta'] = rnd.uniform(50, 2000)
+        p['vib']['u'] = rnd.uniform(-2, 0.5)
+        setattr(modes['vib'], 'einstein_temperature' if v == 'Einstein' else 'debye_temperature', p['vib']['theta'])
+        modes['vib'].interaction_energy = p['vib']['u']
+        n += 1
+    if cfg['rot'] in ('RotLinear', 'RotNonlinear'):
+        p['rot']['sigma'] = rnd.choice([1, 2, 3, 6])
+        p['rot']['thetas'] = [rnd.uniform(0.01, 100) for _ in p['rot']['thetas']]
+        modes['rot'].symmetrynumber = p['rot']['sigma']
+        modes['rot'].rot_temperatures = list(p['rot']['thetas'])
+        n += 1
+    if cfg['elec'] == 'GroundState':
+        p['elec']['spin'] = rnd.choice([s for s in (0, 0.5, 1, 1.5, 2, 3) if s != p['elec']['spin']])
+        p['elec']['E'] = rnd.uniform(-40, 2)
+        modes['elec'].spin = p['elec']['spin']
+        modes['elec'].potentialenergy = p['elec']['E']
+        n += 1
+    elif cfg['elec'] == 'LSR':
+        p['elec']['slope'] = rnd.uniform(0, 1)
+        p['elec']['intercept'] = rnd.uniform(-30, 30)
+        modes['elec'].slope = p['elec']['slope']
+        modes['elec'].intercept = p['elec']['intercept']
+        n += 1
+    return n
+
+
+def pick_T(rnd, edge, thetas_char, k):
+    if k == 0 and edge != 'interior':
+        return edge_value(rnd, 'T', edge, lambda: rnd.uniform(50, 5000))
+    mode_pick = rnd.random()
+    if thetas_char and mode_pick < 0.3:
+        return min(5000.0, max(50.0, rnd.choice(thetas_char) * rnd.uniform(0.7, 1.4)))      # theta ~ T
+    if mode_pick < 0.45:
+        return rnd.uniform(50, 120)                                                         # theta >> T
+    if mode_pick < 0.6:
+        return rnd.uniform(3000, 5000)                                                      # theta << T
+    return rnd.choice([298.15, rnd.uniform(50, 5000)])
+
+
 def exec_config(case):
-    import warnings
     warnings.simplefilter('ignore')
     from pmutt.statmech import StatMech
     rnd = random.Random(case['cseed'])
     cfg = case['cfg']
-    p = draw_params(rnd, cfg)
-    modes = build_modes(cfg, p)
+    idx = case.get('idx', 0)
+    edge = case.get('edge', 'interior')
+    physical = case.get('physical', True)
+    cov = {}
+
+    def hit(key, n=1):
+        cov[key] = cov.get(key, 0) + n
+
+    p = draw_params(rnd, cfg, edge, physical)
+    if case.get('preset') == 'idealgas':
+        p['trans']['n'] = 3
     elements = rnd.choice([{'C': 1, 'O': 2}, {'H': 2, 'O': 1}, {'N': 2}, {'C': 2, 'H': 6, 'O': 1}])
-    sp = StatMech(name='sp', trans_model=modes['trans'], vib_model=modes['vib'], rot_model=modes['rot'],
-                  elec_model=modes['elec'], nucl_model=modes['nucl'], elements=elements)
+    form = case.get('form', 'instances')
+    if form != 'instances' and not routable(cfg):
+        form = 'instances'
+    sp, modes, misc_list = build_species(cfg, p, form, elements)
+    hit('form:' + form.split(':')[0])
+    if form.startswith('preset:'):
+        hit(form)
+    if p['misc'] is not None:
+        hit('misc:' + ('single' if isinstance(p['misc'], str) else 'list'))
+    kinds = [cfg[s] for s in ORDER]
+    haves = [p.get(s, {}).get('have', []) if cfg[s] == 'Partial' else [] for s in ORDER]
+    has_partial = 'Partial' in kinds
+    # verbose calls on a species with a partial mode need raise_error off (judged by the `missing` events)
+    vopt = {'raise_error': False, 'raise_warning': False} if has_partial else {}
     events = []
+    # every parameter on a bound of its range
+    for key, vals in (('wn', p.get('vib', {}).get('wn', []) if cfg['vib'] in ('Harmonic', 'QRRHO') else []),
+                      ('rotT', p.get('rot', {}).get('thetas', []) if cfg['rot'] in ('RotLinear', 'RotNonlinear') else []),
+                      ('M', [p['trans']['M']] if cfg['trans'] == 'FreeTrans' else []),
+                      ('theta', [p['vib']['theta']] if cfg['vib'] in ('Einstein', 'Debye') else [])):
+        lo, hi = RANGES[key]
+        for x in vals:
+            if x == lo:
+                hit(key + '=lo')
+            elif x == hi:
+                hit(key + '=hi')
+            elif lo < x <= lo * (1 + 2e-6):
+                hit(key + '~lo')
+            elif hi * (1 - 2e-6) <= x < hi:
+                hit(key + '~hi')
     thetas_char = []
-    if 'vib' in p:
+    if cfg['vib'] in ('Harmonic', 'QRRHO', 'Einstein', 'Debye'):
         thetas_char = [C2_CMK * abs(w) for w in p['vib'].get('wn', [])] or [p['vib'].get('theta', 300.0)]
+    # the twin built the other way (mode objects <-> classes routed through the constructor)
+    if routable(cfg):
+        other = 'classes' if form == 'instances' else 'instances'
+        sp_twin, _, _ = build_species(cfg, p, other, elements)
+    else:
+        sp_twin = None
     for k in range(case['npoints']):
-        mode_pick = rnd.random()
-        if thetas_char and mode_pick < 0.3:
-            T = min(5000.0, max(50.0, rnd.choice(thetas_char) * rnd.uniform(0.7, 1.4)))      # theta ~ T
-        elif mode_pick < 0.45:
-            T = rnd.uniform(50, 120)                                                         # theta >> T
-        elif mode_pick < 0.6:
-            T = rnd.uniform(3000, 4900)                                                      # theta << T
+        if k == 1 and physical:
+            hit('edits', apply_edit(rnd, cfg, p, modes))
+            sp_twin = None
+        T = pick_T(rnd, edge, thetas_char, k)
+        if k == 0 and edge != 'interior':
+            P = edge_value(rnd, 'P', edge, lambda: 10 ** rnd.uniform(-4, 3))
         else:
-            T = rnd.choice([298.15, rnd.uniform(50, 4900)])
-        P = 10 ** rnd.uniform(-4, 3)
-        P2 = 10 ** rnd.uniform(-4, 3)
+            P = 10 ** rnd.uniform(-4, 3)
+        P2 = rnd.choice([10 ** rnd.uniform(-4, 3), 1e-4, 1e3])
+        if P2 == P:
+            P2 = 1.0
+        for key, x in (('T', T), ('P', P)):
+            lo, hi = RANGES[key]
+            if x == lo:
+                hit(key + '=lo')
+            elif x == hi:
+                hit(key + '=hi')
+            elif lo < x <= lo * (1 + 2e-6):
+                hit(key + '~lo')
+            elif hi * (1 - 2e-6) <= x < hi:
+                hit(key + '~hi')
         dth = p['vib']['theta'] if cfg['vib'] == 'Debye' else None
-        events.append(thermo_event(sp, 'total', case['hasTrans'], T, P, P2, dth))
-        order = ('trans', 'vib', 'rot', 'elec', 'nucl')
+        if physical:
+            events.append(thermo_event(sp, 'total', case['hasTrans'], T, P, P2, dth))
+        # ---- the verbose vector against direct calls of the modes and of the extra models
         for g, name in GNAME.items():
-            if g == 'q' and case['qMissing']:
-                continue
             kw = {'T': T, 'P': P}
-            parts = [float(x) for x in getattr(sp, name)(verbose=True, **kw)]
-            tot = float(getattr(sp, name)(verbose=False, **kw))
-            norefs = float(getattr(sp, name)(verbose=False, use_references=False, **kw))
-            direct = [call(modes[s], name, **kw) for s in order]
-            events.append({'ev': 'verbose', 'g': g, 'tot': to_dec(tot), 'norefs': to_dec(norefs),
-                           'parts': [to_dec(x) for x in parts], 'direct': [to_dec(x) for x in direct]})
+            izpe = 'default'
+            if g == 'q':
+                if case['qMissing']:
+                    continue
+                izpe = rnd.choice(['default', True, False])
+                if izpe != 'default':
+                    kw['include_ZPE'] = izpe
+                hit('q_include_ZPE:%s' % izpe)
+            default = 1.0 if g == 'q' else 0.0
+            parts = [float(x) for x in getattr(sp, name)(verbose=True, **kw, **vopt)]
+            tot = float(getattr(sp, name)(verbose=False, **kw, **vopt))
+            norefs = float(getattr(sp, name)(verbose=False, use_references=False, **kw, **vopt))
+            direct = [call_or(modes[s], name, default, **kw) for s in ORDER]
+            dmisc = [default if m is None else call(m, name, **kw) for m in misc_list]
+            events.append({'ev': 'verbose', 'g': g, 'tot': to_dec(tot), 'norefs': to_dec(norefs), 'izpe': str(izpe),
+                           'parts': [to_dec(x) for x in parts], 'direct': [to_dec(x) for x in direct],
+                           'nmisc': len(misc_list), 'dmisc': [to_dec(x) for x in dmisc], 'hasRefs': False,
+                           'refs': ZD})
+        # ---- species built through the other construction form
+        if sp_twin is not None and k == 0:
+            rows = []
+            for g, name in GNAME.items():
+                if g == 'q' and case['qMissing']:
+                    continue
+                a = [float(x) for x in getattr(sp, name)(verbose=True, T=T, P=P)]
+                b = [float(x) for x in getattr(sp_twin, name)(verbose=True, T=T, P=P)]
+                rows.append({'g': g, 'a': [to_dec(x) for x in a], 'b': [to_dec(x) for x in b]})
+            events.append({'ev': 'routed', 'form': form, 'rows': rows})
+            hit('routed')
+        # ---- raise_error / raise_warning
+        if k == 0:
+            gs = list(GNAME) if has_partial else [list(GNAME)[(idx + j) % 8] for j in range(2)]
+            for g in gs:
+                events.append(missing_event(sp, modes, misc_list, kinds, haves, g, T, P))
+            events.append(missing_event(sp, modes, misc_list, kinds, haves, 'ZPE', T, P))
+            if has_partial:
+                gd = list(DIMNAME)[idx % 7]
+                events.append(missing_event(sp, modes, misc_list, kinds, haves, gd, T, P, dim_unit=R_UNITS[idx % 16]))
+                hit('missing_dim')
+            hit('missing', len(gs) + 1)
+            if any(haves[i] != list(GNAME) and kinds[i] == 'Partial' for i in range(5)):
+                hit('missing_lacking')
+        # ---- electronic energy, include_ZPE
+        events.append(energy_event(sp, modes, kinds, haves, T, R_UNITS[(idx + k) % 16][:-2]))
+        hit('energy')
+        hit('energy_vib:' + cfg['vib'])
+        if not physical:
+            continue
+        # ---- argument types
+        if k == 0:
+            events.append(argtype_event(sp, rnd, cfg['rot'] == 'RotNonlinear'))
+            hit('argtype')
         # entropy of the elements as an option of S, F and G: the total drops by S_ele and stays the sum of
         # the verbose vector (S_ele for the reference: the library's own element table, judged by C12)
         from pmutt import constants as c
@@ -268,55 +801,74 @@ def exec_config(case):
         for g in ('S', 'F', 'G'):
             name = GNAME[g]
             kw = {'T': T, 'P': P}
-            try:
-                tot0 = float(getattr(sp, name)(verbose=False, **kw))
-                parts0 = [float(x) for x in getattr(sp, name)(verbose=True, **kw)]
-                tot = float(getattr(sp, name)(verbose=False, S_elements=True, **kw))
-                parts = [float(x) for x in getattr(sp, name)(verbose=True, S_elements=True, **kw)]
-            except TypeError:
-                continue
+            tot0 = float(getattr(sp, name)(verbose=False, **kw))
+            parts0 = [float(x) for x in getattr(sp, name)(verbose=True, **kw)]
+            tot = float(getattr(sp, name)(verbose=False, S_elements=True, **kw))
+            parts = [float(x) for x in getattr(sp, name)(verbose=True, S_elements=True, **kw)]
             sr = selref if g == 'S' else -selref
             events.append({'ev': 'verbose_sel', 'g': g, 'tot': to_dec(tot), 'tot0': to_dec(tot0),
                            'parts': [to_dec(x) for x in parts], 'parts0': [to_dec(x) for x in parts0],
                            'selref': to_dec(sr)})
         # option combinations on a twin species that carries a References object (an enthalpy offset):
-        # the defining relations under every (use_references, S_elements) combination, dimensionless and in J/mol
+        # the defining relations under every (use_references, S_elements) combination, dimensionless and in
+        # the unit of this case (every unit of the documented table over a run)
         if k == 0:
             from pmutt.empirical.references import References
             off = {el: rnd.uniform(-3.0, 3.0) for el in elements}
             T_ref = rnd.choice([298.15, 500.0, rnd.uniform(200, 900)])
-            sp_ref = StatMech(name='spr', trans_model=modes['trans'], vib_model=modes['vib'], rot_model=modes['rot'],
-                              elec_model=modes['elec'], nucl_model=modes['nucl'], elements=elements,
-                              references=References(offset=dict(off), T_ref=T_ref))
+            sp_ref, modes_ref, misc_ref = build_species(cfg, p, 'instances', elements, name='spr',
+                                                        references=References(offset=dict(off), T_ref=T_ref))
+            unit = ALL_UNITS[idx % len(ALL_UNITS)]
+            eunit = unit[:-2]
             rows = []
-            try:
-                for ur in (True, False):
-                    for se in (True, False):
-                        kw = {'T': T, 'P': P, 'use_references': ur}
-                        kws = dict(kw, S_elements=se)
-                        rows.append({'ur': ur, 'se': se,
-                                     'G': to_dec(float(sp_ref.get_GoRT(**kws))), 'H': to_dec(float(sp_ref.get_HoRT(**kw))),
-                                     'S': to_dec(float(sp_ref.get_SoR(**kws))), 'U': to_dec(float(sp_ref.get_UoRT(**kw))),
-                                     'F': to_dec(float(sp_ref.get_FoRT(**kws))),
-                                     'Gd': to_dec(float(sp_ref.get_G(units='J/mol', **kws))),
-                                     'Hd': to_dec(float(sp_ref.get_H(units='J/mol', **kw))),
-                                     'Sd': to_dec(float(sp_ref.get_S(units='J/mol/K', **kws))),
-                                     'Ud': to_dec(float(sp_ref.get_U(units='J/mol', **kw))),
-                                     'Fd': to_dec(float(sp_ref.get_F(units='J/mol', **kws)))})
-            except (TypeError, AttributeError, ValueError) as ex:
-                # a mode without q (no F) etc.: the plain species raises the same way and is judged elsewhere
-                rows = None
-                OPT_SKIPS.append(type(ex).__name__)
-            if rows is not None:
-                refoff = -sum(off[el] * n for el, n in elements.items()) * T_ref / T
-                events.append({'ev': 'opt', 'T': to_dec(T), 'refoff': to_dec(refoff), 'rows': rows})
-        for slot in order:
+            for ur in (True, False):
+                for se in (True, False):
+                    kw = {'T': T, 'P': P, 'use_references': ur}
+                    kws = dict(kw, S_elements=se)
+                    rows.append({'ur': ur, 'se': se,
+                                 'G': to_dec(float(sp_ref.get_GoRT(**kws))), 'H': to_dec(float(sp_ref.get_HoRT(**kw))),
+                                 'S': to_dec(float(sp_ref.get_SoR(**kws))), 'U': to_dec(float(sp_ref.get_UoRT(**kw))),
+                                 'F': to_dec(float(sp_ref.get_FoRT(**kws))),
+                                 'Cv': to_dec(float(sp_ref.get_CvoR(**kw))), 'Cp': to_dec(float(sp_ref.get_CpoR(**kw))),
+                                 'Gd': to_dec(float(sp_ref.get_G(units=eunit, **kws))),
+                                 'Hd': to_dec(float(sp_ref.get_H(units=eunit, **kw))),
+                                 'Sd': to_dec(float(sp_ref.get_S(units=unit, **kws))),
+                                 'Ud': to_dec(float(sp_ref.get_U(units=eunit, **kw))),
+                                 'Fd': to_dec(float(sp_ref.get_F(units=eunit, **kws))),
+                                 'Cvd': to_dec(float(sp_ref.get_Cv(units=unit, **kw))),
+                                 'Cpd': to_dec(float(sp_ref.get_Cp(units=unit, **kw))),
+                                 'Hvec': [to_dec(float(x)) for x in sp_ref.get_H(units=eunit, verbose=True, **kw)]})
+            refoff = -sum(off[el] * n for el, n in elements.items()) * T_ref / T
+            events.append({'ev': 'opt', 'T': to_dec(T), 'refoff': to_dec(refoff), 'rows': rows, 'unit': unit,
+                           'perMass': unit in MASS_UNITS})
+            hit('unit:' + unit)
+            # the verbose vector of the species with references: the references slot carries the offset
+            for g in ('H', 'G', 'S', 'Cp'):
+                name = GNAME[g]
+                kw = {'T': T, 'P': P}
+                parts = [float(x) for x in getattr(sp_ref, name)(verbose=True, **kw)]
+                tot = float(getattr(sp_ref, name)(verbose=False, **kw))
+                norefs = float(getattr(sp_ref, name)(verbose=False, use_references=False, **kw))
+                direct = [call(modes_ref[s], name, **kw) for s in ORDER]
+                dmisc = [0.0 if m is None else call(m, name, **kw) for m in misc_ref]
+                events.append({'ev': 'verbose', 'g': g, 'tot': to_dec(tot), 'norefs': to_dec(norefs), 'izpe': 'default',
+                               'parts': [to_dec(x) for x in parts], 'direct': [to_dec(x) for x in direct],
+                               'nmisc': len(misc_ref), 'dmisc': [to_dec(x) for x in dmisc], 'hasRefs': True,
+                               'refs': to_dec(refoff if g in ('H', 'G') else 0.0)})
+            hit('verbose_refs')
+        for slot in ORDER:
             kind = cfg[slot]
             if kind in ('Empty', 'EmptyNucl'):
                 continue
             events.append(thermo_event(modes[slot], kind, kind == 'FreeTrans', T, P, P2, dth if kind == 'Debye' else None))
             events.extend(mode_events(slot, kind, modes[slot], p, T, P))
-    return events, {'params': p}
+            if kind == 'LSR':
+                hit('lsr:' + p['elec']['form'])
+            if kind == 'QRRHO':
+                hit('alpha:%d' % p['vib']['alpha'])
+            if kind == 'FreeTrans':
+                hit('n_degrees:%d' % p['trans']['n'])
+    return events, {'params': p, 'cov': cov}
 
 
 POINT_GROUPS = ['C1', 'Cs', 'C2', 'C2v', 'C3v', 'Cinfv', 'D2h', 'D3h', 'D5h', 'Dinfh', 'D3d', 'Td', 'Oh']
@@ -324,7 +876,6 @@ POINT_GROUPS = ['C1', 'Cs', 'C2', 'C2v', 'C3v', 'Cinfv', 'D2h', 'D3h', 'D5h', 'D
 
 def exec_labels(case):
     """symmetry numbers given as point-group labels: every documented label, plus labels that are not documented"""
-    import warnings
     warnings.simplefilter('ignore')
     from pmutt.statmech import rot, StatMech
     rnd = random.Random(case['cseed'])
@@ -352,7 +903,6 @@ def exec_labels(case):
 
 def exec_cache(case):
     """VibCache behaviour -> real object; getter equality with a fresh object built from TLC's valid list"""
-    import warnings
     warnings.simplefilter('ignore')
     import numpy as np
     from pmutt.statmech import vib
@@ -407,27 +957,40 @@ def exec_cache(case):
 
 
 def exec_geometry(case):
-    import warnings
     warnings.simplefilter('ignore')
     import numpy as np
     from ase.collections import g2
     from pmutt import get_molecular_weight, parse_formula
+    from pmutt.statmech import StatMech, presets, trans, rot
     from pmutt.statmech.rot import get_geometry_from_atoms, get_rot_temperatures_from_atoms
     rnd = random.Random(case['cseed'])
     atoms = g2[case['mol']]
 
-    def derived(a):
-        geom = get_geometry_from_atoms(a)
-        ths = sorted(float(t) for t in get_rot_temperatures_from_atoms(a))
-        comp = parse_formula(a.get_chemical_formula('hill'))
-        return {'geom': geom, 'thetas': [to_dec(t) for t in ths],
-                'mass': to_dec(get_molecular_weight(a.get_chemical_formula('hill'))),
+    def derived(a, form='functions'):
+        if form == 'functions':
+            geom = get_geometry_from_atoms(a)
+            ths = sorted(float(t) for t in get_rot_temperatures_from_atoms(a))
+            comp = parse_formula(a.get_chemical_formula('hill'))
+            mass = get_molecular_weight(a.get_chemical_formula('hill'))
+        elif form == 'modes':            # the documented atoms= argument of the mode constructors
+            r = rot.RigidRotor(symmetrynumber=1, atoms=a)
+            geom, ths = r.geometry, sorted(float(t) for t in r.rot_temperatures)
+            mass = trans.FreeTrans(atoms=a).molecular_weight
+            comp = StatMech(atoms=a).elements
+        else:                            # atoms= routed through the species constructor and the ideal-gas preset
+            sp = StatMech(atoms=a, vib_wavenumbers=[1000.0], potentialenergy=-1.0, spin=0, symmetrynumber=1,
+                          **presets['idealgas'])
+            geom, ths = sp.rot_model.geometry, sorted(float(t) for t in sp.rot_model.rot_temperatures)
+            mass = sp.trans_model.molecular_weight
+            comp = sp.elements
+        return {'geom': geom, 'thetas': [to_dec(t) for t in ths], 'mass': to_dec(mass),
                 'comp': sorted([k, int(v)] for k, v in comp.items())}
 
     a0 = derived(atoms)
     events = []
     cur = atoms.copy()
-    for _ in range(case['nsteps']):
+    forms = ('functions', 'modes', 'preset')
+    for i in range(case['nsteps']):
         op = rnd.choice(['rotate', 'translate', 'permute'])
         if op == 'rotate':
             v = [rnd.gauss(0, 1) for _ in range(3)]
@@ -438,8 +1001,9 @@ def exec_geometry(case):
             idx = list(range(len(cur)))
             rnd.shuffle(idx)
             cur = cur[idx]
-        events.append({'ev': 'geometry', 'op': op, 'a': a0, 'b': derived(cur)})
-    return events, {}
+        form = forms[(i + case.get('idx', 0)) % 3]
+        events.append({'ev': 'geometry', 'op': op, 'form': form, 'a': a0, 'b': derived(cur, form)})
+    return events, {'cov': {'geomform:' + f: sum(1 for e in events if e['form'] == f) for f in forms}}
 
 
 def execute(case):
@@ -455,22 +1019,55 @@ def execute(case):
         raise
     except Exception as ex:
         import traceback
-        return [], {'raised': '%s: %s' % (type(ex).__name__, ex), 'tb': traceback.format_exc()[-600:]}
+        return [], {'raised': '%s: %s' % (type(ex).__name__, ex), 'tb': traceback.format_exc()[-900:]}
+
+
+# the configurations each preset describes (mode kinds per slot)
+PRESET_CFGS = {
+    'idealgas': [{'trans': 'FreeTrans', 'vib': 'Harmonic', 'rot': r, 'elec': 'GroundState', 'nucl': 'Empty'}
+                 for r in ('RotNonlinear', 'RotLinear', 'RotMono')],
+    'harmonic': [{'trans': 'Empty', 'vib': 'Harmonic', 'rot': 'Empty', 'elec': 'GroundState', 'nucl': 'Empty'}],
+    'electronic': [{'trans': 'Empty', 'vib': 'Empty', 'rot': 'Empty', 'elec': 'GroundState', 'nucl': 'Empty'}],
+    'placeholder': [{'trans': 'Empty', 'vib': 'Empty', 'rot': 'Empty', 'elec': 'Empty', 'nucl': 'Empty'}],
+    'constant': [{'trans': 'Empty', 'vib': 'Empty', 'rot': 'Empty', 'elec': 'Constant', 'nucl': 'Empty'}],
+}
+
+# coverage classes that every run must reach (zero => the run is vacuous, exit 2)
+def required_counters():
+    req = ['form:instances', 'form:classes', 'routed', 'edits', 'missing', 'missing_lacking', 'missing_dim', 'energy',
+           'argtype', 'verbose_refs', 'misc:single', 'misc:list', 'lsr:float', 'lsr:objects', 'lsr:mixed',
+           'alpha:2', 'alpha:4', 'alpha:6', 'n_degrees:1', 'n_degrees:2', 'n_degrees:3',
+           'q_include_ZPE:default', 'q_include_ZPE:True', 'q_include_ZPE:False',
+           'geomform:functions', 'geomform:modes', 'geomform:preset']
+    req += ['preset:' + k for k in PRESET_CFGS]
+    req += ['unit:' + u for u in ALL_UNITS]
+    req += ['energy_vib:' + v for v in ('Harmonic', 'QRRHO', 'Einstein', 'Debye', 'Empty', 'Constant', 'Partial')]
+    for key in RANGES:
+        req += [key + '=lo', key + '=hi', key + '~lo', key + '~hi']
+    return req
 
 
 def run(ctx):
     ctx.coverage['rule'] = (
-        'config cases: every one of the 160 mode-kind configurations emitted by TLC, instantiated with random '
-        'parameters over the property ranges and evaluated at several (T, P) with the regimes theta<<T, theta~T, '
-        'theta>>T forced; cache cases: TLC behaviours of the vibrational cache replayed on HarmonicVib and QRRHOVib; '
-        'geometry cases: G2 molecules under random rotations, translations and atom permutations; non-trivial: a '
-        'config with at least one non-empty mode, a cache behaviour with a mutation, a geometry case with >= 2 atoms; '
+        'config cases: every one of the 240 physical mode-kind configurations emitted by TLC (twice per quick run), a '
+        'seed-rotated sample of the 3120 configurations with a user-set mode (all of them in the thorough tier) and '
+        'every preset, instantiated from mode objects or through the keyword routing, with parameters on the bounds '
+        'of the property ranges, adjacent to them and inside, evaluated at several (T, P) including 50 / 5000 K and '
+        '1e-4 / 1e3 bar and the regimes theta<<T, theta~T, theta>>T; cache cases: TLC behaviours of the vibrational '
+        'cache replayed on HarmonicVib and QRRHOVib; geometry cases: G2 molecules under random rotations, '
+        'translations and atom permutations through the functions, the mode constructors and the ideal-gas preset; '
+        'non-trivial: a config with at least one non-empty mode, a cache behaviour with a mutation, a geometry case; '
         'distinct by (kind, configuration or behaviour or molecule, seed)')
     rnd = random.Random(ctx.seed)
     if ctx.replay_case is not None:
         cases = [ctx.replay_case['case']]
     else:
-        cfgs, r = core.tlc_cases('MC_StatMech', 'MC_StatMech')
+        import concurrent.futures as cf
+        with cf.ThreadPoolExecutor(max_workers=2) as ex:
+            f1 = ex.submit(core.tlc_cases, 'MC_StatMech', 'MC_StatMech')
+            f2 = ex.submit(core.run_tlc, 'MC_StatMech', 'MC_StatMech_beh', workers=1, timeout=900)
+            cfgs, r = f1.result()
+            rb = f2.result()
         if not r.ok:
             raise core.MachineryError('StatMech design model failed:\n' + r.out[-3000:])
         ctx.count('states', r.distinct)
@@ -478,8 +1075,7 @@ def run(ctx):
         ctx.coverage.setdefault('models', []).append(
             {'module': 'MC_StatMech', 'cfg': 'MC_StatMech', 'distinct_states': r.distinct,
              'states_generated': r.states, 'ok': r.ok,
-             'assumes': ['AggregatorOK over 160 configurations', 'PressureOnlyTrans']})
-        rb = core.run_tlc('MC_StatMech', 'MC_StatMech_beh', workers=1, timeout=900)
+             'assumes': ['AggregatorOK over %d configurations' % len(cfgs), 'PressureOnlyTrans', 'OptionsOK']})
         behs = [core.parse_tla(p)[1] for p in rb.prints() if core.tagged(p, 'BEH')]
         if not rb.ok or not behs:
             raise core.MachineryError('cache behaviour generation failed:\n' + rb.out[-2000:])
@@ -490,14 +1086,44 @@ def run(ctx):
             behs += [core.parse_tla(p)[1] for p in rs.prints() if core.tagged(p, 'BEH')]
         rnd.shuffle(behs)
         if ctx.quick:
-            behs = behs[:1200]
+            behs = behs[:1000]
+        keyf = lambda c: tuple(c[s] for s in ORDER)
+        phys = sorted([c for c in cfgs if c['physical']], key=keyf)
+        user = sorted([c for c in cfgs if not c['physical']], key=keyf)
+        if len(phys) != 240 or len(user) != 3120:
+            raise core.MachineryError('unexpected configuration space: %d physical, %d user-set' % (len(phys), len(user)))
+        ctx.coverage['configurations'] = {'physical': len(phys), 'user_set': len(user)}
+        rnd.shuffle(user)
+        if ctx.quick:
+            user = user[:160]
         cases = []
-        for rep in range(ctx.pick(2, 25)):
-            for cfg in cfgs:
-                cases.append({'kind': 'config',
-                              'cfg': {k: cfg[k] for k in ('trans', 'vib', 'rot', 'elec', 'nucl')},
-                              'hasTrans': cfg['hasTrans'], 'qMissing': cfg['qMissing'],
-                              'npoints': ctx.pick(2, 4), 'cseed': rnd.randrange(1 << 30)})
+        idx = ctx.seed * 7
+        # a balanced, seed-shuffled assignment of the boundary classes to the configuration cases
+        edge_pool = []
+
+        def config_case(cfg, **extra):
+            nonlocal idx
+            idx += 1
+            if not edge_pool:
+                edge_pool.extend(EDGES * 8)
+                rnd.shuffle(edge_pool)
+            d = {'kind': 'config', 'cfg': {k: cfg[k] for k in ORDER},
+                 'hasTrans': cfg['hasTrans'], 'qMissing': cfg['qMissing'], 'physical': cfg['physical'],
+                 'nLackZPE': cfg['nLackZPE'], 'npoints': ctx.pick(2, 4), 'cseed': rnd.randrange(1 << 30),
+                 'idx': idx, 'edge': edge_pool.pop(), 'form': 'instances' if idx % 2 else 'classes'}
+            d.update(extra)
+            return d
+
+        for rep in range(ctx.pick(2, 12)):
+            for cfg in phys:
+                cases.append(config_case(cfg))
+        for cfg in user:
+            cases.append(config_case(cfg, npoints=ctx.pick(1, 2)))
+        bykey = {keyf(c): c for c in cfgs}
+        for rep in range(ctx.pick(1, 6)):
+            for name, pcs in PRESET_CFGS.items():
+                for pc in pcs:
+                    cases.append(config_case(bykey[keyf(pc)], form='preset:' + name, preset=name))
         for i, h in enumerate(behs):
             cases.append({'kind': 'cache', 'vibkind': 'harmonic' if i % 2 == 0 else 'qrrho',
                           'int_wn': (i // 2) % 2 == 1, 'fracsub': (i // 4) % 2 == 1,
@@ -506,16 +1132,19 @@ def run(ctx):
         from ase.collections import g2
         names = list(g2.names)
         rnd.shuffle(names)
-        for mol in names[:ctx.pick(60, len(names))]:
-            cases.append({'kind': 'geometry', 'mol': mol, 'nsteps': ctx.pick(4, 12), 'cseed': rnd.randrange(1 << 30)})
+        for i, mol in enumerate(names[:ctx.pick(60, len(names))]):
+            cases.append({'kind': 'geometry', 'mol': mol, 'nsteps': ctx.pick(4, 12), 'cseed': rnd.randrange(1 << 30), 'idx': i})
     if ctx.replay_case is None:
         for via in ('direct', 'statmech'):
             cases.append({'kind': 'labels', 'via': via, 'cseed': rnd.randrange(1 << 30)})
     results = core.pmap(execute, cases)
     traces = []
+    cov = {}
     for tid, (case, (events, info)) in enumerate(zip(cases, results)):
         ctx.evaluated()
         tags = {'kind': case['kind']}
+        for k, n in info.get('cov', {}).items():
+            cov[k] = cov.get(k, 0) + n
         if case['kind'] == 'config':
             tags.update(case['cfg'])
             if any(v not in ('Empty',) for v in case['cfg'].values()):
@@ -531,14 +1160,33 @@ def run(ctx):
             ctx.violation('Raises', case, tags=tags, detail=info)
         for m in info.get('mism', []):
             ctx.violation('CacheFresh', case, tags=tags, detail=m)
+        # (S->C) the number of modes without a zero-point energy TLC computed for this configuration
+        if case['kind'] == 'config' and 'nLackZPE' in case:
+            for e in events:
+                if e['ev'] == 'missing' and e['g'] == 'ZPE':
+                    row = [r for r in e['rows'] if not r['re'] and r['rw']][0]
+                    if row['out'] != 'value' or row['nwarn'] != case['nLackZPE'] + e['nmiscLack']:
+                        ctx.violation('OptionReplay', case, tags=dict(tags, ev='missing'),
+                                      detail={'expected_warnings': case['nLackZPE'] + e['nmiscLack'], 'row': row})
         traces.append((tid, events))
         if tid % 401 == 0:
             ctx.sample(case)
     n_opt = sum(1 for _, evs in traces for e in evs if e.get('ev') == 'opt')
     ctx.coverage['option_events_with_references'] = n_opt
-    if ctx.replay_case is None and n_opt < 50:
-        raise core.MachineryError('vacuous run: only %d option events (species with a References object)' % n_opt)
-    fails, stats = core.validate_traces('Trace_StatMech', 'Trace', traces)
+    ctx.coverage['input_classes'] = dict(sorted(cov.items()))
+    evc = {}
+    for _, evs in traces:
+        for e in evs:
+            evc[e['ev']] = evc.get(e['ev'], 0) + 1
+    ctx.coverage['events'] = dict(sorted(evc.items()))
+    if ctx.replay_case is None:
+        if n_opt < 50:
+            raise core.MachineryError('vacuous run: only %d option events (species with a References object)' % n_opt)
+        empty = [k for k in required_counters() if not cov.get(k)]
+        if empty:
+            raise core.MachineryError('vacuous run: input classes never generated: %s' % ', '.join(empty))
+    shards = int(os.environ.get('VERIF_SHARDS', '0') or 0) or None
+    fails, stats = core.validate_traces('Trace_StatMech', 'Trace', traces, shards=shards)
     ctx.count('traces_validated_against_impl', len(traces))
     ctx.coverage['trace_lines'] = stats['lines']
     seen = set()
@@ -556,6 +1204,8 @@ def run(ctx):
                'by multiplication in TLA+; the Debye integral is a quadrature witness of the textbook integrand')
     ctx.assume('derivative relations are Richardson central differences (h = 2^-7) of recorded values')
     ctx.assume('CODATA 2014 constants in the specification; clauses hold to ~1e-6 relative of the largest operand')
+    ctx.assume('temperatures and pressures are scalars (the getters document T : float): Python float / int and numpy '
+               'float64 / int64 / int32 scalars; arrays and float32 are outside the documented argument type')
 
 
 if __name__ == '__main__':
